@@ -93,14 +93,39 @@ fn columns_enough(n: usize, cycle: Option<usize>) {
     vcheck!("C23.composition_columns.at_least_one", ctx.num_constraint_composition_columns() >= 1);
 }
 
-//# harness: fn=AirContext::num_constraint_composition_columns, set_num_transition_exemptions, ce_domain_size; label=complete in base degree 1..=8, blowup, exemption count for trace lengths 8 and 1024 (no cycle, cycle 2, cycle 8); tier=quick; props=C23,C01; uses=columns_enough,context_for; timeout=900
+//# harness: fn=AirContext::num_constraint_composition_columns, set_num_transition_exemptions, ce_domain_size (trace length 8, no cycle); label=complete in base degree 1..=8, blowup, exemption count for trace length 8 (no cycle); tier=quick; props=C23,C01; uses=columns_enough,context_for; timeout=900
 #[cfg_attr(kani, kani::proof)]
 #[cfg_attr(kani, kani::unwind(5))]
 #[cfg_attr(kani, kani::stub(alloc::fmt::format, vs::fake_format))]
-pub fn k_c23_composition_columns() {
+pub fn k_c23_composition_columns_n8() {
     columns_enough(8, None);
-    columns_enough(8, Some(2));
-    columns_enough(1024, None);
-    columns_enough(1024, Some(8));
-    vreach!("C23.columns.reach");
+    vreach!("C23.columns.n8.reach");
 }
+
+//# harness: fn=AirContext::num_constraint_composition_columns, set_num_transition_exemptions, ce_domain_size (trace length 8, cycle 2); label=complete in base degree 1..=8, blowup, exemption count for trace length 8 (cycle 2); tier=quick; props=C23,C01; uses=columns_enough,context_for; timeout=900
+#[cfg_attr(kani, kani::proof)]
+#[cfg_attr(kani, kani::unwind(5))]
+#[cfg_attr(kani, kani::stub(alloc::fmt::format, vs::fake_format))]
+pub fn k_c23_composition_columns_n8_c2() {
+    columns_enough(8, Some(2));
+    vreach!("C23.columns.n8_c2.reach");
+}
+
+//# harness: fn=AirContext::num_constraint_composition_columns, set_num_transition_exemptions, ce_domain_size (trace length 1024, no cycle); label=complete in base degree 1..=8, blowup, exemption count for trace length 1024 (no cycle); tier=quick; props=C23,C01; uses=columns_enough,context_for; timeout=900
+#[cfg_attr(kani, kani::proof)]
+#[cfg_attr(kani, kani::unwind(5))]
+#[cfg_attr(kani, kani::stub(alloc::fmt::format, vs::fake_format))]
+pub fn k_c23_composition_columns_n1024() {
+    columns_enough(1024, None);
+    vreach!("C23.columns.n1024.reach");
+}
+
+//# harness: fn=AirContext::num_constraint_composition_columns, set_num_transition_exemptions, ce_domain_size (trace length 1024, cycle 8); label=complete in base degree 1..=8, blowup, exemption count for trace length 1024 (cycle 8); tier=quick; props=C23,C01; uses=columns_enough,context_for; timeout=900
+#[cfg_attr(kani, kani::proof)]
+#[cfg_attr(kani, kani::unwind(5))]
+#[cfg_attr(kani, kani::stub(alloc::fmt::format, vs::fake_format))]
+pub fn k_c23_composition_columns_n1024_c8() {
+    columns_enough(1024, Some(8));
+    vreach!("C23.columns.n1024_c8.reach");
+}
+
